@@ -558,6 +558,81 @@ Proof.
 Qed.
 
 (* ------------------------------------------------------------------------------------------ *)
+(* the flush clause: every OFrame the machine emits is one complete frame *)
+
+Definition obs_shape_ok (o : obs) : bool :=
+  match o with OFrame b => frame_shape_ok b | _ => true end.
+
+Lemma frames_on_wire_eq tr : frames_on_wire tr = forallb (forallb obs_shape_ok) tr.
+Proof. reflexivity. Qed.
+
+Lemma frame_shape_frame p : (blen p <= max_frame_default)%N -> frame_shape_ok (frame p) = true.
+Proof.
+  intros Hp. destruct (be32_roundtrip (blen p)) as (a & b & c0 & d & Hbe & Hval).
+  - pose proof max_frame_small. lia.
+  - unfold frame. rewrite Hbe. cbn [app frame_shape_ok]. rewrite Hval. apply N.eqb_refl.
+Qed.
+
+Lemma frame_encode_shape p f : frame_encode max_frame_default p = Some f ->
+  frame_shape_ok f = true.
+Proof.
+  intros Ef. apply frame_encode_some in Ef. destruct Ef as [-> Hp]. apply frame_shape_frame. exact Hp.
+Qed.
+
+Lemma decode_payload_shape C c2s p w : obs_shape_ok (decode_payload C c2s p w) = true.
+Proof.
+  unfold decode_payload. destruct C as [| |cap|]; try reflexivity; destruct c2s.
+  - destruct (cm_of_bincode p); reflexivity.
+  - destruct (resp_of_bincode p); reflexivity.
+  - destruct (cm_of_json_text p); reflexivity.
+  - destruct (resp_of_json_text p); reflexivity.
+Qed.
+
+Lemma decode_outs_shape C c2s : forall outs W, forallb obs_shape_ok (decode_outs C c2s outs W) = true.
+Proof.
+  induction outs as [|o outs IH]; intros W; [reflexivity|].
+  destruct o; cbn [decode_outs forallb]; rewrite ?decode_payload_shape, IH; reflexivity.
+Qed.
+
+Lemma ch_obs_shape (l : list (ch_obs wmsg)) : forallb obs_shape_ok (map ch_obs_to_obs l) = true.
+Proof.
+  induction l as [|x l IH]; [reflexivity|]. cbn [map forallb]. rewrite IH. destruct x; reflexivity.
+Qed.
+
+Lemma step_shape c c2s s o : forallb obs_shape_ok (snd (step c c2s s o)) = true.
+Proof.
+  unfold step. destruct (is_framed (codec c)).
+  - destruct (closed s); [reflexivity|]. destruct o as [m|p t| | |].
+    + destruct (payload_of (codec c) m) as [p|]; [|reflexivity].
+      destruct (frame_encode max_frame_default p) as [f|] eqn:Ef; [|reflexivity].
+      cbn [snd forallb obs_shape_ok]. rewrite (frame_encode_shape p f Ef). reflexivity.
+    + destruct (frame_encode max_frame_default p) as [f|] eqn:Ef; [|reflexivity].
+      cbn [snd forallb obs_shape_ok]. rewrite (frame_encode_shape p f Ef). reflexivity.
+    + reflexivity.
+    + cbn [snd]. apply decode_outs_shape.
+    + cbn [snd forallb obs_shape_ok]. apply decode_outs_shape.
+  - destruct o as [m|p t| | |].
+    + destruct (ch_step (chan_cap (codec c)) (chan s) (ChSend m)) as [q l]. apply ch_obs_shape.
+    + reflexivity.
+    + destruct (ch_step (chan_cap (codec c)) (chan s) ChRecv) as [q l]. apply ch_obs_shape.
+    + destruct (ch_step (chan_cap (codec c)) (chan s) ChDropTx) as [q l]. apply ch_obs_shape.
+    + destruct (codec c) as [| |cap|]; try reflexivity;
+        destruct (ch_step (chan_cap (TBounded cap)) (chan s) ChDropTx) as [q l]; apply ch_obs_shape.
+Qed.
+
+Lemma run_from_frames_on_wire c c2s : forall ops s,
+  frames_on_wire (fst (run_from c c2s s ops)) = true.
+Proof.
+  induction ops as [|o ops IH]; intros s; [reflexivity|].
+  rewrite run_from_cons, frames_on_wire_eq. cbn [forallb].
+  rewrite step_shape, <- frames_on_wire_eq, IH. reflexivity.
+Qed.
+
+(* no premise at all: whatever the configuration and the script *)
+Lemma run_frames_on_wire : forall c ops, frames_on_wire (fst (run c ops)) = true.
+Proof. intros c ops. unfold run. apply run_from_frames_on_wire. Qed.
+
+(* ------------------------------------------------------------------------------------------ *)
 (* C15 *)
 
 Theorem strict_monitor_framed : forall c ops,
@@ -566,7 +641,8 @@ Theorem strict_monitor_framed : forall c ops,
   cut c <> 4%nat ->
   wire_strict_ok c ops (fst (run c ops)) = true.
 Proof.
-  intros c ops Hf Hwf Hcut. unfold wire_strict_ok, run. rewrite Hf, framed_strict_ok_eq.
+  intros c ops Hf Hwf Hcut. unfold wire_strict_ok, run.
+  rewrite Hf, run_from_frames_on_wire, andb_true_r, framed_strict_ok_eq.
   destruct (run_collect c (is_c2s ops) Hf ops init eq_refl Hwf)
     as (ws & cl & ro & rt & Hcol & Hfits & Hcl).
   rewrite Hcol. destruct cl as [got|]; [|reflexivity].
@@ -639,7 +715,8 @@ Lemma strict_implies_c15 : forall c ops tr, wire_strict_ok c ops tr = true -> c1
 Proof.
   intros c ops tr. unfold wire_strict_ok, c15_ok.
   destruct (is_framed (codec c)); [|exact (fun H => H)].
-  rewrite framed_strict_ok_eq, framed_ok_eq.
+  intros H. apply andb_true_iff in H. destruct H as [H Hw]. rewrite Hw, andb_true_r.
+  revert H. rewrite framed_strict_ok_eq, framed_ok_eq.
   destruct (collect (codec c) (is_c2s ops) ops tr) as [[[[es cl] ro] rt]|]; [|exact (fun H => H)].
   destruct cl as [got|]; [|exact (fun H => H)].
   apply strict_relaxed.
@@ -662,7 +739,8 @@ Theorem c15_monitor_framed : forall c ops,
   Forall (op_wf (is_c2s ops)) ops ->
   c15_ok c ops (fst (run c ops)) = true.
 Proof.
-  intros c ops Hf Hwf. unfold c15_ok, run. rewrite Hf, framed_ok_eq.
+  intros c ops Hf Hwf. unfold c15_ok, run.
+  rewrite Hf, run_from_frames_on_wire, andb_true_r, framed_ok_eq.
   destruct (run_collect c (is_c2s ops) Hf ops init eq_refl Hwf)
     as (ws & cl & ro & rt & Hcol & Hfits & Hcl).
   rewrite Hcol. destruct cl as [got|]; [|reflexivity].
@@ -788,4 +866,122 @@ Proof.
   - intros Hin. apply expo_items in Hin. destruct Hin as [Hin|[m Hin]]; discriminate Hin.
   - intros Hin. apply expo_items in Hin. destruct Hin as [Hin|[m Hin]]; discriminate Hin.
   - intros Hin. apply expo_items in Hin. destruct Hin as [Hin|[m Hin]]; discriminate Hin.
+Qed.
+
+(* ------------------------------------------------------------------------------------------ *)
+(* the byte stream under a framed transport: poll_flush over a stream with a staging buffer *)
+
+(* the write loop: nothing reaches the wire, nothing is lost or reordered, the stream's flush
+   script is untouched; Ready means the codec buffer is empty; with enough fuel a Pending comes
+   from a Pending poll_write, which consumes one entry of the write script *)
+Lemma write_out_inv : forall fuel w p w', write_out fuel w = (p, w') ->
+  b_wire (w_io w') = b_wire (w_io w) /\
+  b_stage (w_io w') ++ w_buf w' = b_stage (w_io w) ++ w_buf w /\
+  w_fl w' = w_fl w /\
+  (p = PReady -> w_buf w' = []) /\
+  (length (w_wr w') <= length (w_wr w))%nat /\
+  ((length (w_buf w) < fuel)%nat -> p = PPending -> (length (w_wr w') < length (w_wr w))%nat).
+Proof.
+  induction fuel as [|f IH]; intros w p w' H.
+  - cbn [write_out] in H. injection H as <- <-.
+    repeat split; try reflexivity; try lia. discriminate.
+  - cbn [write_out] in H. destruct (w_buf w) as [|x buf] eqn:Eb.
+    + injection H as <- <-. rewrite Eb.
+      repeat split; try reflexivity; try lia. discriminate.
+    + destruct (w_wr w) as [|[|k] r] eqn:Ew.
+      * apply IH in H. cbn [w_buf w_io w_wr w_fl b_stage b_wire length] in H.
+        destruct H as (H1 & H2 & H3 & H4 & H5 & H6).
+        rewrite app_nil_r in H2.
+        repeat split; try assumption. cbn [length]. intros Hlt Hp. apply H6 in Hp; lia.
+      * injection H as <- <-. cbn [w_buf w_io w_wr w_fl length].
+        repeat split; try reflexivity; try lia. discriminate.
+      * apply IH in H. cbn [w_buf w_io w_wr w_fl b_stage b_wire] in H.
+        destruct H as (H1 & H2 & H3 & H4 & H5 & H6).
+        rewrite <- app_assoc, firstn_skipn in H2.
+        repeat split; try assumption.
+        -- cbn [length]. lia.
+        -- cbn [length]. intros Hlt Hp.
+           assert (Hs : (length (skipn (S k) (x :: buf)) < f)%nat).
+           { rewrite skipn_length. cbn [length] in *. lia. }
+           specialize (H6 Hs Hp). lia.
+Qed.
+
+(* a Transport::poll_flush that returned Ready(Ok) left nothing behind: codec buffer and staging
+   buffer are empty and everything that was in them is on the wire, in order *)
+Theorem flush_ready_means_on_wire : forall w w', poll_flush w = (PReady, w') ->
+  w_buf w' = [] /\ b_stage (w_io w') = [] /\
+  b_wire (w_io w') = b_wire (w_io w) ++ b_stage (w_io w) ++ w_buf w.
+Proof.
+  intros w w' H. unfold poll_flush in H.
+  destruct (write_out (S (length (w_buf w))) w) as [p w1] eqn:E.
+  destruct p; [|discriminate].
+  apply write_out_inv in E. destruct E as (H1 & H2 & H3 & H4 & _ & _).
+  specialize (H4 eq_refl). rewrite H4, app_nil_r in H2.
+  unfold stream_flush in H. destruct (w_fl w1); [|discriminate].
+  injection H as <-. cbn [w_buf w_io b_stage b_wire].
+  rewrite H1, H2, H4. repeat split; reflexivity.
+Qed.
+
+(* a Pending poll_flush loses and reorders nothing, puts nothing new on the wire, and makes
+   progress in the script *)
+Theorem flush_pending_keeps_bytes : forall w w', poll_flush w = (PPending, w') ->
+  b_wire (w_io w') = b_wire (w_io w) /\
+  b_stage (w_io w') ++ w_buf w' = b_stage (w_io w) ++ w_buf w /\
+  (length (w_wr w') + w_fl w' < length (w_wr w) + w_fl w)%nat.
+Proof.
+  intros w w' H. unfold poll_flush in H.
+  destruct (write_out (S (length (w_buf w))) w) as [p w1] eqn:E.
+  apply write_out_inv in E. destruct E as (H1 & H2 & H3 & H4 & H5 & H6).
+  destruct p.
+  - unfold stream_flush in H. destruct (w_fl w1) as [|k] eqn:Ef; [discriminate|].
+    injection H as <-. cbn [w_buf w_io w_wr w_fl].
+    repeat split; try assumption. lia.
+  - injection H as <-. repeat split; try assumption.
+    specialize (H6 (Nat.lt_succ_diag_r _) eq_refl). lia.
+Qed.
+
+Lemma flush_until_ready_measure : forall n w, (length (w_wr w) + w_fl w <= n)%nat ->
+  exists w', flush_until_ready (S n) w = Some w' /\
+    w_buf w' = [] /\ b_stage (w_io w') = [] /\
+    b_wire (w_io w') = b_wire (w_io w) ++ b_stage (w_io w) ++ w_buf w.
+Proof.
+  induction n as [|n IH]; intros w Hm.
+  - cbn [flush_until_ready]. destruct (poll_flush w) as [p w1] eqn:E. destruct p.
+    + exists w1. split; [reflexivity|]. apply flush_ready_means_on_wire. exact E.
+    + apply flush_pending_keeps_bytes in E. lia.
+  - cbn [flush_until_ready]. destruct (poll_flush w) as [p w1] eqn:E. destruct p.
+    + exists w1. split; [reflexivity|]. apply flush_ready_means_on_wire. exact E.
+    + apply flush_pending_keeps_bytes in E. destruct E as (E1 & E2 & E3).
+      destruct (IH w1) as (w' & Hr & Hb & Hs & Hw); [lia|].
+      exists w'. split; [exact Hr|]. split; [exact Hb|]. split; [exact Hs|].
+      rewrite Hw, E1, E2. reflexivity.
+Qed.
+
+(* polling until Ready terminates, whatever the script of partial writes and Pending results *)
+Theorem flush_terminates : forall w, exists w',
+  flush_until_ready (S (length (w_wr w) + w_fl w)) w = Some w' /\
+  w_buf w' = [] /\ b_stage (w_io w') = [] /\
+  b_wire (w_io w') = b_wire (w_io w) ++ b_stage (w_io w) ++ w_buf w.
+Proof. intros w. apply flush_until_ready_measure. apply Nat.le_refl. Qed.
+
+(* hence: send a frame, flush until Ready => exactly that frame was added to the wire (this is what
+   `step` assumes for a Send over a clean stream) *)
+Theorem send_flush_on_wire : forall w f, w_buf w = [] -> b_stage (w_io w) = [] -> exists w',
+  flush_until_ready (S (length (w_wr w) + w_fl w)) (start_send_frame w f) = Some w' /\
+  w_buf w' = [] /\ b_stage (w_io w') = [] /\ b_wire (w_io w') = b_wire (w_io w) ++ f.
+Proof.
+  intros w f Hb Hs. destruct (flush_terminates (start_send_frame w f)) as (w' & Hr & Hb' & Hs' & Hw).
+  cbn [start_send_frame w_buf w_io w_wr w_fl] in Hr, Hw. rewrite Hb, Hs in Hw. cbn [app] in Hw.
+  exists w'. repeat split; assumption.
+Qed.
+
+(* the seeded fast path is wrong: Ready with bytes still in the staging buffer *)
+Lemma flush_skipping_refuted : exists w w1 w2,
+  poll_flush_skipping w = (PPending, w1) /\ poll_flush_skipping w1 = (PReady, w2) /\
+  b_stage (w_io w2) <> [] /\ b_wire (w_io w2) = b_wire (w_io w).
+Proof.
+  exists {| w_buf := [1%N; 2%N; 3%N]; w_io := {| b_stage := []; b_wire := [] |};
+            w_wr := []; w_fl := 1 |}.
+  do 2 eexists. split; [vm_compute; reflexivity|]. split; [vm_compute; reflexivity|].
+  split; [discriminate|reflexivity].
 Qed.
